@@ -293,6 +293,10 @@ MUTATIONS += [
     dict(id="C03-copy-snapshots-before-index", prop="C03", file="crates/core/src/commands/copy.rs", old="    indexer.write().unwrap().finalize()?;\n\n    let p = repo_dest.progress_counter(\"saving snapshots...\");\n    be_dest.save_list(snaps.iter(), p)?;", new="    let p = repo_dest.progress_counter(\"saving snapshots...\");\n    be_dest.save_list(snaps.iter(), p)?;\n    indexer.write().unwrap().finalize()?;"),
 ]
 
+MUTATIONS += [
+    dict(id="C03-rewrite-forget-before-save", prop="C03", file="crates/core/src/commands/rewrite.rs", old="        repo.save_snapshots(snapshots.clone())?;\n        if opts.forget {\n            let old_snap_ids: Vec<_> = snapshots.iter().map(|sn| sn.id).collect();\n            repo.delete_snapshots(&old_snap_ids)?;\n        }", new="        if opts.forget {\n            let old_snap_ids: Vec<_> = snapshots.iter().map(|sn| sn.id).collect();\n            repo.delete_snapshots(&old_snap_ids)?;\n        }\n        repo.save_snapshots(snapshots.clone())?;"),
+]
+
 HARMLESS = [
     dict(id="H-C05-trees-symlink-continue", prop="C05", file=CK, old="        for node in tree.nodes {\n            match node.node_type {", new="        for node in tree.nodes {\n            if node.node_type == NodeType::Symlink {\n                continue;\n            }\n            match node.node_type {"),
 ]
